@@ -13,6 +13,7 @@ refuted     -> the counter-model is concretised and REPLAYED against the real fu
                by the deductive layer (D_DECIDED).
 """
 import itertools
+import os
 import sys
 
 from vlib import codec, core, repo
@@ -45,6 +46,23 @@ def _params_of(qualname):
     return dsl.CONTRACTS[qualname].params
 
 
+def _in_tempcwd(fn):
+    import functools
+    import tempfile
+
+    @functools.wraps(fn)
+    def wrapped(*a, **k):
+        old = os.getcwd()
+        with tempfile.TemporaryDirectory(prefix="verif_rt_") as d:
+            os.chdir(d)
+            try:
+                return fn(*a, **k)
+            finally:
+                os.chdir(old)
+
+    return wrapped
+
+
 def runtime_contract(qualname, args):
     """Evaluate requires / call / ensures on real objects.  -> None if the precondition
     does not hold (input not applicable), else (ok: bool, detail)."""
@@ -66,6 +84,10 @@ def runtime_contract(qualname, args):
     call_args = [a for a in args]
     if list(K.params)[:1] == ["cls"]:
         call_args = call_args[1:]  # classmethod: the contract's `cls` placeholder is not passed
+    if getattr(K.cls, "runtime_tempcwd", False):
+        # the function may read / write files relative to the working directory (the automaton database):
+        # evaluated in a fresh temporary directory, never in /verif
+        fn = _in_tempcwd(fn)
     try:
         res = fn(*call_args)
         if (K.returns in ("gen", "Seq", "TupleList") or str(K.returns).startswith("Seq[")) and not isinstance(res, (list, tuple)):
